@@ -1000,7 +1000,7 @@ func runScopeProgram(c *Ctx, r *Rng, mode string) {
 					sr.retagged = true
 				}
 			}
-			ownRoot := false
+			ownRoot, ownP := false, 0
 			if r.Chance(12) {
 				// re-tag a scope with (a subset of) its OWN tags, spelled as the application spelled them when it created
 				// the scope (for the root: the tags given to the constructor): the identity is the scope's own, so the
@@ -1027,17 +1027,34 @@ func runScopeProgram(c *Ctx, r *Rng, mode string) {
 						m[ks[0]] = own[ks[0]]
 					}
 					c.Cov.Hit("tagged.with-own-tags")
-					ownRoot = p == 0 && !rootClosed
+					// C05 promises the very same scope "through inputs the sanitizer leaves unchanged" only
+					// (for a derived scope: the derivation that created it included - its shard is that of the key as the
+					// application spelled it then)
+					unchanged := true
+					for k, v := range m {
+						if sr.san.Key(k) != k || sr.san.Value(v) != v {
+							unchanged = false
+						}
+					}
+					if p != 0 {
+						for k, v := range own {
+							if sr.san.Key(k) != k || sr.san.Value(v) != v {
+								unchanged = false
+							}
+						}
+					}
+					ownRoot = unchanged && !rootClosed && (p == 0 || !sr.closed[p])
+					ownP = p
 				}
 			}
 			keep := copyTags(m)
 			tok := mapHex(m)
 			sh := sr.shardFor(p, nil, m)
 			s := sr.scopes[p].Tagged(m)
-			if ownRoot && s != sr.scopes[0] {
-				// the root is reachable from every shard: whatever the spelling hashes to, the root's own identity is the root
-				c.Cov.Fail(Failure{Kind: "violated", Clause: "same-identity-same-scope", Signature: sr.sigBase + "root-identity-second-scope",
-					Line: strings.Join(sr.lines, " ; "), Reply: fmt.Sprintf("root.Tagged(%s) - (a subset of) the tags the root was constructed with - returned another scope than the root", tok), Detail: strings.Join(sr.lines, "\n")})
+			if ownRoot && s != sr.scopes[ownP] {
+				// same prefix, same effective tag set, spelled as the sanitizer leaves it: the very same live scope
+				c.Cov.Fail(Failure{Kind: "violated", Clause: "same-identity-same-scope", Signature: sr.sigBase + "own-identity-second-scope",
+					Line: strings.Join(sr.lines, " ; "), Reply: fmt.Sprintf("scope %d .Tagged(%s) - (a subset of) the tags the scope was created with, which the sanitizer leaves unchanged - returned another scope than scope %d", ownP, tok, ownP), Detail: strings.Join(sr.lines, "\n")})
 			}
 			// the library must not have mutated the map; mutating it afterwards must change nothing
 			if mapHex(m) != tok {
